@@ -58,7 +58,7 @@ CHECKS = {
    note="Crash = process death (page cache survives); power loss / fsync ordering is out of scope as the property speaks of process death. The unwritable-directory fault is skipped when running as root.",
    tech="deterministic simulation with crash-point enumeration: worker processes killed at hook-defined points of the save path, kernel-injected write failures, on-disk state compared with the two legal versions"),
  "C19": dict(cat="exploration", ref="5.13",
-   text="Seeded attack histories: constants of every value type incl. arrays/maps on both sides of the size thresholds are bound, then hit by random sequences of 30 kinds of mutation attempts (assignment forms, ++/--, index/dot assignment, element deletion, loop variable incl. loops starting at the constant's own value and the ninth nested loop, function-local constants, parameter name, nested functions and loops, self-append, catch-wrapped, alias, mutating callee, cancelled slow assignment, numerically equal value of the other type also nested in containers, loop bodies reading the constant) with explicit del+rebind interleaved; two real sessions (registers on/off) run in lock-step and after every attempt every bound constant is re-observed in both; outcome classes and printed output must agree between the modes. A monitor mode re-observes every upper-case name of general generated sessions after every input. Recorded alias-based findings (rooted in C06) are matched narrowly and the search continues past them.",
+   text="Seeded attack histories: constants of every value type incl. arrays/maps on both sides of the size thresholds are bound, then hit by random sequences of 34 kinds of mutation attempts (assignment forms, ++/--, index/dot assignment, element deletion, loop variable incl. loops starting at the constant's own value and the ninth nested loop, function-local constants, parameter name, nested functions and loops, self-append, catch-wrapped, alias, mutating callee, cancelled slow assignment, numerically equal value of the other type also nested in containers, loop bodies reading the constant) with explicit del+rebind interleaved; two real sessions (registers on/off) run in lock-step and after every attempt every bound constant is re-observed in both; outcome classes and printed output must agree between the modes. A monitor mode re-observes every upper-case name of general generated sessions after every input. Recorded alias-based findings (rooted in C06) are matched narrowly and the search continues past them.",
    note="An attempt may fail or be a no-op; re-binding an equal value is allowed by the language. Attempts on a name that is not currently bound are skipped.",
    tech="deterministic simulation: seeded attack histories with injected cancellation, invariant (constant unchanged) checked after every step on both register configurations"),
  "C20": dict(cat="exploration", ref="5.14",
